@@ -204,3 +204,22 @@ pub fn run_c07(tier: &str, config: &str) -> Report {
 pub fn skein_one<H: HK>(rep: &mut Report, tier: &str) {
     run_one::<H>(rep, "C05", tier);
 }
+
+fn replay_one<H: HK>(v: &serde_json::Value) -> bool {
+    let m = &v["msg"];
+    let msg = if let Some(n) = m.get("len") { Msg::Pat(m["pattern"].as_u64().unwrap() as u8, n.as_u64().unwrap() as usize) } else { Msg::OneHot(m["onehot_len"].as_u64().unwrap() as usize, m["bit"].as_u64().unwrap() as usize) };
+    let b = msg.bytes();
+    let want = H::ref_digest(&b);
+    println!("replay {} {} message {}", v["check"], H::NAME, msg.json());
+    println!("  expected {}", vref::hex(&want));
+    match guarded(|| H::D::digest(&b).to_vec()) {
+        Err(p) => { println!("  observed PANIC {}", p); false }
+        Ok(g) => { println!("  observed {}", vref::hex(&g)); g == want }
+    }
+}
+/// plain re-execution of one recorded case of C04-C07 (the 15 hashers of the property list;
+/// Skein with other output sizes is replayed through the signature fallback)
+pub fn replay(v: &serde_json::Value) -> Option<bool> {
+    let name = v["hasher"].as_str()?;
+    crate::with_hasher!(name, replay_one, v)
+}
